@@ -28,7 +28,7 @@ func (w *World) repairWriteSites() []ioSite {
 func (w *World) encoderWriteSites() []ioSite {
 	var out []ioSite
 	for _, s := range w.fileIOSites() {
-		n := shortName(s.Fn)
+		n := w.writerOwner(s.Fn)
 		if s.Method == "WriteFile" && (n == "(*par1.Encoder).Write" || n == "(*par2.Encoder).Write") {
 			out = append(out, s)
 		}
@@ -123,6 +123,120 @@ func findHashGuards(b *ssa.BasicBlock, hashFns ...string) []hashGuard {
 	return out
 }
 
+// sameElem: do a and b denote the same element - the same SSA value, loads of the same cell, or
+// loads of the same slice element X[i]?
+func sameElem(a, b ssa.Value) bool {
+	a, b = stripConv(a), stripConv(b)
+	if a == b {
+		return true
+	}
+	la, ok1 := a.(*ssa.UnOp)
+	lb, ok2 := b.(*ssa.UnOp)
+	if !ok1 || !ok2 || la.Op != token.MUL || lb.Op != token.MUL {
+		return false
+	}
+	if la.X == lb.X {
+		return true
+	}
+	ia, ok1 := la.X.(*ssa.IndexAddr)
+	ib, ok2 := lb.X.(*ssa.IndexAddr)
+	if ok1 && ok2 && ia.Index == ib.Index {
+		pa, pb := valuePath(ia.X), valuePath(ib.X)
+		return pa.Root == pb.Root && pa.Path == pb.Path
+	}
+	return false
+}
+
+// writeGuards finds the hash comparisons that protect a write of `data` at block blk: those that
+// dominate blk directly, and - when data is the result of a private helper whose success the
+// write depends on - those that dominate every success return of the helper on the value it
+// returns there. For the latter the compared hash field is re-rooted at the caller's argument
+// (entry) so that "same entry" questions can be asked in the caller.
+func (w *World) writeGuards(blk *ssa.BasicBlock, data ssa.Value, hashFns ...string) (gs []hashGuard, entry ssa.Value) {
+	gs = findHashGuards(blk, hashFns...)
+	var direct []hashGuard
+	for _, g := range gs {
+		if g.hashArg == data {
+			direct = append(direct, g)
+		}
+	}
+	if len(direct) > 0 {
+		return gs, nil
+	}
+	idx := 0
+	var hc *ssa.Call
+	switch x := data.(type) {
+	case *ssa.Extract:
+		hc, _ = x.Tuple.(*ssa.Call)
+		idx = x.Index
+	case *ssa.Call:
+		hc = x
+	}
+	if hc == nil {
+		return gs, nil
+	}
+	g := hc.Call.StaticCallee()
+	if g == nil || len(g.Blocks) == 0 || !w.inModule(g) || !instrDominatesBlock(hc, blk) {
+		return gs, nil
+	}
+	// the write must be on the helper's success side (if it returns an error)
+	if eidx := errResultIndex(g.Signature); len(eidx) > 0 {
+		onSuccess := false
+		for _, c := range cmpsAt(blk) {
+			if c.Op != token.EQL || c.Y == nil {
+				continue
+			}
+			for _, pr := range [][2]ssa.Value{{c.X, c.Y}, {c.Y, c.X}} {
+				if ex, ok := pr[0].(*ssa.Extract); ok && ex.Tuple == ssa.Value(hc) && isNilConst(pr[1]) {
+					onSuccess = true
+				}
+			}
+		}
+		if !onSuccess {
+			return gs, nil
+		}
+	}
+	rets := successReturns(g)
+	if len(rets) == 0 {
+		return gs, nil
+	}
+	var out []hashGuard
+	for ri, ret := range rets {
+		if idx >= len(ret.Results) {
+			return gs, nil
+		}
+		rv := stripConv(ret.Results[idx])
+		found := false
+		for _, ig := range findHashGuards(ret.Block(), hashFns...) {
+			if ig.hashArg != rv {
+				continue
+			}
+			ip := deepPath(ig.other)
+			for j, prm := range g.Params {
+				if ip.Root == ssa.Value(prm) && j < len(hc.Call.Args) {
+					ap := valuePath(hc.Call.Args[j])
+					ng := ig
+					ng.hashArg = data
+					ng.path = accessPath{Root: ap.Root, Path: ap.Path + ip.Path}
+					if ri == 0 {
+						out = append(out, ng)
+					}
+					entry = hc.Call.Args[j]
+					found = true
+				}
+			}
+		}
+		if !found {
+			return gs, nil // some success return of the helper is not guarded
+		}
+	}
+	return out, entry
+}
+
+func instrDominatesBlock(in ssa.Instruction, b *ssa.BasicBlock) bool {
+	return in.Block() == b || in.Block().Dominates(b)
+}
+
 // ---------------------------------------------------------------------------
 // WGUARD
 
@@ -144,8 +258,12 @@ func ruleWGUARD(w *World, r *Report, requireErrorReturn bool) {
 		pkg := w.fnPkg(s.Fn)
 		blk := s.Call.Block()
 
+		var entryVal ssa.Value // the caller-side value of the entry when the checks live in a helper
 		check := func(kind string, fieldWant string, fns ...string) (hashGuard, bool) {
-			gs := findHashGuards(blk, fns...)
+			gs, ev := w.writeGuards(blk, data, fns...)
+			if ev != nil {
+				entryVal = ev
+			}
 			if len(gs) == 0 {
 				r.bad("WGUARD", key+":"+kind, pos, fmt.Sprintf("no dominating %s equality check before this write: nothing guarantees the written bytes match the archive's %s", kind, fieldWant))
 				return hashGuard{}, false
@@ -183,7 +301,9 @@ func ruleWGUARD(w *World, r *Report, requireErrorReturn bool) {
 				r.bad("WGUARD", key+":path-entry", pos, "the path written is not the result of getFilePath(entry)")
 			} else {
 				ep := valuePath(pc.Call.Args[1])
-				if sameRoot(ep, gmd.path) && ep.Path == "" {
+				if entryVal != nil && sameElem(pc.Call.Args[1], entryVal) {
+					r.ok("WGUARD", key+":path-entry", pos, "path = getFilePath(e) with e the entry handed to the helper that checked the hashes")
+				} else if sameRoot(ep, gmd.path) && ep.Path == "" {
 					r.ok("WGUARD", key+":path-entry", pos, "path = getFilePath("+ep.String()+"), the entry whose hashes were checked")
 				} else {
 					r.bad("WGUARD", key+":path-entry", pos, fmt.Sprintf("path is derived from %s but the hashes checked belong to %s", ep, gmd.path.Root.Name()))
@@ -527,6 +647,11 @@ func ruleSKIPOK(w *World, r *Report) {
 			if pc != nil && len(pc.Call.Args) == 2 {
 				ep := valuePath(pc.Call.Args[1])
 				agree := false
+				if ld, ok := stripConv(pc.Call.Args[1]).(*ssa.UnOp); ok && ld.Op == token.MUL {
+					if ia, ok := ld.X.(*ssa.IndexAddr); ok && ia.Index == idx {
+						agree = true // the entry is read straight from the set with the loop index
+					}
+				}
 				if al, ok := ep.Root.(*ssa.Alloc); ok {
 					for _, ref := range referrersOf(al) {
 						if st, ok := ref.(*ssa.Store); ok && st.Addr == al {
@@ -629,41 +754,63 @@ func typeCarriesString(t types.Type) bool {
 func ruleCREATEPATHS(w *World, r *Report) {
 	r.rule("CREATE-PATHS", ruleCREATEPATHSText)
 	sites := w.encoderWriteSites()
-	r.floor("CREATE-PATHS", "WriteFile sites in Encoder.Write", len(sites), 4)
+	r.floor("CREATE-PATHS", "WriteFile sites in Encoder.Write", len(sites), 2)
 	for _, s := range sites {
 		key := s.key()
 		pos := w.ipos(s.Call)
 		bad := ""
 		usesParam := false
-		backSlice(s.Call.Common().Args[0], func(v ssa.Value) bool {
-			switch x := v.(type) {
-			case *ssa.Parameter:
-				if isReceiver(s.Fn, x) {
+		var slice func(v ssa.Value, in *ssa.Function, depth int)
+		slice = func(v ssa.Value, in *ssa.Function, depth int) {
+			backSlice(v, func(v ssa.Value) bool {
+				switch x := v.(type) {
+				case *ssa.Parameter:
+					if isReceiver(in, x) {
+						return true
+					}
+					if b, ok := x.Type().Underlying().(*types.Basic); ok && b.Info()&types.IsString != 0 {
+						owner := w.writerOwner(in)
+						if shortName(in) == owner || depth > 2 {
+							usesParam = true // the writer's own indexPath parameter
+							return true
+						}
+						// a helper's parameter: what the writer passes for it
+						idx := -1
+						for i, p := range in.Params {
+							if p == x {
+								idx = i
+							}
+						}
+						for _, cf := range region(w.Fn(owner)) {
+							for _, c := range callInstrs(cf) {
+								if c.Common().StaticCallee() == in && idx >= 0 && idx < len(c.Common().Args) {
+									slice(c.Common().Args[idx], cf, depth+1)
+								}
+							}
+						}
+					}
 					return true
-				}
-				if b, ok := x.Type().Underlying().(*types.Basic); ok && b.Info()&types.IsString != 0 {
-					usesParam = true
-				}
-				return true
-			case *ssa.UnOp:
-				if x.Op == token.MUL {
-					p := valuePath(x)
-					if p.Root != nil && isReceiver(s.Fn, p.Root) && typeCarriesString(x.Type()) {
-						bad = fmt.Sprintf("field %s of the encoder (loaded at %s)", p.Path, w.ipos(x))
+				case *ssa.UnOp:
+					if x.Op == token.MUL {
+						p := valuePath(x)
+						if p.Root != nil && isReceiver(in, p.Root) && typeCarriesString(x.Type()) {
+							bad = fmt.Sprintf("field %s of the encoder (loaded at %s)", p.Path, w.ipos(x))
+							return false
+						}
+					}
+				case *ssa.Global:
+					if typeCarriesString(x.Type()) {
+						bad = "package-level variable " + x.Name()
 						return false
 					}
-				}
-			case *ssa.Global:
-				if typeCarriesString(x.Type()) {
-					bad = "package-level variable " + x.Name()
+				case *ssa.FreeVar:
+					bad = "captured variable " + x.Name()
 					return false
 				}
-			case *ssa.FreeVar:
-				bad = "captured variable " + x.Name()
-				return false
-			}
-			return true
-		})
+				return true
+			})
+		}
+		slice(s.Call.Common().Args[0], s.Fn, 0)
 		if bad != "" {
 			r.bad("CREATE-PATHS", key, pos, "the output path depends on "+bad+": Create could write over one of its inputs")
 		} else if !usesParam {
